@@ -50,12 +50,25 @@ func (blockchain *Blockchain) AddBlock(timestamp int64, transactions []*ledger.T
 			return fmt.Errorf("unable to calculate last block hash: %w", err)
 		}
 	}
-	// Confirm the previous block first, so that the registered and removed addresses of the new block are
-	// computed from the same state peers will verify it against
+	// Peers verify a block against the registered addresses as of either side of the previous block (one block
+	// behind when it extends their chain, up to date when it competes with their last block): list every address
+	// that is not registered in both states
+	addedAddresses := blockchain.registry.Filter(newAddresses)
 	if err := blockchain.confirmLastBlock(); err != nil {
 		return err
 	}
-	addedAddresses := blockchain.registry.Filter(newAddresses)
+	for _, address := range blockchain.registry.Filter(newAddresses) {
+		var isAlreadyAdded bool
+		for _, addedAddress := range addedAddresses {
+			if addedAddress == address {
+				isAlreadyAdded = true
+				break
+			}
+		}
+		if !isAlreadyAdded {
+			addedAddresses = append(addedAddresses, address)
+		}
+	}
 	removedAddresses := blockchain.registry.RemovedAddresses()
 	block := ledger.NewBlock(previousHash, addedAddresses, removedAddresses, timestamp, transactions)
 	blockchain.blocks = append(blockchain.blocks, block)
